@@ -26,6 +26,7 @@ BUDGET = {"quick": 50, "thorough": 600}
 CHUNK = 1500
 DETERMINISM = {"quick": 32, "thorough": 200}
 RULE = (
+    '40% of the differential_evolution scenarios give the seed as a numpy Generator object inside the (re-used) configuration. '
     "scenario A: samplers of every built-in method (method cycles with the index), shared or not, 1-3 samplers per variable, "
     "filters, estimators, masks, NaN faults; back-end scripted (50%), real deterministic SciPy methods slsqp/l-bfgs-b/nelder-mead/"
     "cobyla (35%) or differential_evolution with an explicit seed option (15%). 1-3 companion scenarios drawn independently. "
